@@ -5,7 +5,7 @@
    openfile_depth) and the reference's budget (spec_max_links) are the
    constants goextract read from those files on this run. *)
 From Coq Require Import Sorting.Sorted.
-From Apko Require Import Base.Prelude Model.MemFS Spec.FsSpec Model.DirFS Proofs.FsDir Proofs.FsProofs Proofs.FsLaws Proofs.FsWf Proofs.FsAgree Proofs.FsReach Proofs.FsTame Proofs.FsTameOps Proofs.FsTameReach Proofs.FsWeights Generated.FsConsts.
+From Apko Require Import Base.Prelude Model.MemFS Spec.FsSpec Model.DirFS Model.SubFS Proofs.FsSub Proofs.FsDir Proofs.FsProofs Proofs.FsLaws Proofs.FsWf Proofs.FsAgree Proofs.FsReach Proofs.FsTame Proofs.FsTameOps Proofs.FsTameReach Proofs.FsWeights Proofs.FsDirRooted Generated.FsConsts.
 Open Scope string_scope. Open Scope list_scope.
 
 (* the limits the theorems below are about: both files say the same, and it is
@@ -532,6 +532,67 @@ Example c17_dirfs_demo_in_envelope :
       OOk; OOk; OBytes [7]%N; OInfo KDir 493%N 0%N 0%Z 0%Z None; OPath ["d"]; OOk; ODir [("g", KReg)]; OOk; OErr ENotExist; OOk; OErr EClosed ].
 Proof. vm_compute. split; reflexivity. Qed.
 
+(* ---- rooted names, Mknod / Readnod, and the syntactic class for dirFS ---------------------------
+   Every name the host sees went through filepath.Join(base, name) ([hp]), which
+   drops a leading "/" (and turns "/" into "."), while the overlay is asked with
+   the name as given.  For a normalised name the reference resolves [hp p] as it
+   resolves [p], [hp] is idempotent and does not climb: so the theorem holds for
+   ROOTED names as well ([denv_r] = [denv] with relative weakened to normalised),
+   now with Mknod (the host's mknod succeeding) and Readnod (of a name that is not
+   itself a symbolic link: dirFS asks os.Stat first, which follows it).  The
+   premise "inode 0 of the host is a directory" holds of every state reached from
+   the empty directory (it is what makes "/" and "." the same name). *)
+Theorem c17_dirfs_refines_rooted : forall d o, dsync d -> is_dir (heap (d_host d)) 0 = true -> denv_r d o = true ->
+  let '(d', r) := dirfs_step d o in
+  dsync d' /\
+  if ov_only o then d_host d' = d_host d /\ spec_step (d_ov d) o = (d_ov d', r)
+  else spec_step (d_host d) o = (d_host d', r).
+Proof. exact dirfs_refines_r. Qed.
+Print Assumptions c17_dirfs_refines_rooted.
+
+Theorem c17_dirfs_run_refines_rooted : forall ops, run_in_denv_g (E MemFS) dinit ops = true ->
+  dsync (fst (dirfs_run dinit ops)) /\
+  d_host (fst (dirfs_run dinit ops)) = fst (spec_run init_st (host_ops ops)) /\
+  host_obs ops (snd (dirfs_run dinit ops)) = snd (spec_run init_st (host_ops ops)).
+Proof. intros ops H. exact (dirfs_run_refines_r ops dinit dsync_init init_wf_model H). Qed.
+Print Assumptions c17_dirfs_run_refines_rooted.
+
+(* the overlay's envelope clause replaced by the syntactic class: for a sequence
+   whose Symlink operations are tame and respect a weight [w] chosen in advance,
+   the overlay is asked only for [syn_ev w]: the weight of the operation's own
+   openFile/MkdirAll path within the budget, and no clause of its envelope OTHER
+   than the link clause failing.  (What stays semantic is dirFS's own: the host's
+   link(2) conditions, MkdirAll / mknod not failing on the host.) *)
+Theorem c17_dirfs_run_refines_class : forall w ops,
+  forallb tame_op ops = true -> forallb (wt_op w) ops = true -> run_in_denv_g (syn_ev w) dinit ops = true ->
+  dsync (fst (dirfs_run dinit ops)) /\
+  d_host (fst (dirfs_run dinit ops)) = fst (spec_run init_st (host_ops ops)) /\
+  host_obs ops (snd (dirfs_run dinit ops)) = snd (spec_run init_st (host_ops ops)).
+Proof. exact dirfs_run_refines_class. Qed.
+Print Assumptions c17_dirfs_run_refines_class.
+
+(* tame links and the weight certificate are invariants of the overlay along EVERY
+   dirFS run (in sync or not), so the step form needs them of the operations only *)
+Theorem c17_dirfs_overlay_class_invariant : forall w d o,
+  ovinv w (d_ov d) -> tame_op o = true -> wt_op w o = true -> ovinv w (d_ov (fst (dirfs_step d o))).
+Proof. exact dirfs_step_ovinv. Qed.
+Print Assumptions c17_dirfs_overlay_class_invariant.
+
+Definition c17_dirfs_rooted_demo : list op :=
+  [ Mkdir [""; "d"] 493%N; WriteFile [""; "d"; "f"] [1; 2; 3]%N 420%N; Symlink ["d"] [""; "l"]; Stat ["l"; "f"]; ReadDir [""; ""]; ReadDir [""; "d"];
+    OpenFile [""; "l"; "g"] (mkFl ARdWr false true false false) 420%N; Write 0 [9]%N; ReadFile ["d"; "g"]; Chmod [""; "d"; "g"] 384%N; Stat ["d"; "g"];
+    Link [""; "d"; "g"] [""; "h"]; Mknod [""; "d"; "n"] 432%N 259%N; Readnod ["d"; "n"]; Readnod [""; "d"; "g"]; Readnod ["nope"];
+    Lstat [""; "d"]; Readlink [""; "l"]; Remove [""; "d"; "f"]; MkdirAll [""; "d"; "x"; "y"] 493%N; ReadDir ["l"]; Stat [""; ""] ].
+Example c17_dirfs_rooted_demo_in_envelope :
+  forallb tame_op c17_dirfs_rooted_demo = true /\ forallb (wt_op c17_seq_w) c17_dirfs_rooted_demo = true /\
+  run_in_denv_g (syn_ev c17_seq_w) dinit c17_dirfs_rooted_demo = true /\
+  run_in_denv dinit c17_dirfs_rooted_demo = false /\
+  snd (dirfs_run dinit c17_dirfs_rooted_demo) =
+    [ OOk; OOk; OOk; OInfo KReg 420%N 3%N 0%Z 0%Z None; ODir [("d", KDir); ("l", KSym)]; ODir [("f", KReg)]; OOk; ONum 1%Z; OBytes [9]%N; OOk;
+      OInfo KReg 384%N 1%N 0%Z 0%Z None; OOk; OOk; ONum 259%Z; OErr EOther; OErr ENotExist; OInfo KDir 493%N 0%N 0%Z 0%Z None; OPath ["d"]; OOk; OOk;
+      ODir [("g", KReg); ("n", KDev); ("x", KDir)]; OInfo KDir 493%N 0%N 0%Z 0%Z None ].
+Proof. vm_compute. repeat split; reflexivity. Qed.
+
 (* outside [denv] overlay and host drift apart and dirFS is no filesystem any
    more: Remove of a non-empty directory fails on the host (ENOTEMPTY) AFTER the
    overlay has dropped the entry; then Stat d says NotExist (overlay first),
@@ -548,6 +609,76 @@ Theorem c17_dirfs_drift_refuted :
   snd (dirfs_step d1 (ReadDir ["d"])) = OErr ENotExist.
 Proof. vm_compute. repeat split; try reflexivity. intro H; discriminate H. Qed.
 Print Assumptions c17_dirfs_drift_refuted.
+
+(* ---- the sub-filesystem view (sub.go: SubFS) -----------------------------------------------------
+   [sub_step b root] (Model/SubFS.v): every method joins its name to the root with
+   filepath.Join and calls the parent; Symlink and Link pass their names on
+   unjoined (as the code does today).  For a root of ordinary names, an operation
+   that SubFS joins and names without a ".." component: the step through the
+   sub-filesystem IS the parent's step at root/name (the root followed by the
+   name's ordinary components), hence the reference's step there inside that
+   operation's envelope; and every path the parent is asked about lies under the
+   root (lexically: root followed by ordinary names). *)
+Theorem c17_subfs_is_parent_at_joined_path : forall b root s o,
+  plain_root root = true -> sub_joined o = true -> forallb no_dotdot (sub_paths o) = true ->
+  sub_step b root s o = model_step b s (at_root root o) /\
+  (E b s (at_root root o) = true -> sub_step b root s o = spec_step s (at_root root o)).
+Proof. exact sub_step_refines. Qed.
+Print Assumptions c17_subfs_is_parent_at_joined_path.
+
+Theorem c17_subfs_confined : forall root o, plain_root root = true -> forallb no_dotdot (sub_paths o) = true ->
+  forall p, In p (joined_paths root o) -> exists q, p = root ++ q /\ forallb clean_name q = true.
+Proof. exact sub_confined. Qed.
+Print Assumptions c17_subfs_confined.
+
+Example c17_subfs_nonvacuous : forall b,
+  let s := after b [MkdirAll ["d"; "e"] 493%N; WriteFile ["out"] [7]%N 420%N] in
+  let root := ["d"; "e"] in
+  plain_root root = true /\
+  sub_op root (WriteFile [""; "x"; "."; "f"] [1]%N 420%N) = WriteFile ["d"; "e"; "x"; "f"] [1]%N 420%N /\
+  sub_op root (ReadDir ["."]) = ReadDir ["d"; "e"] /\ sub_op root (Stat [""; ""]) = Stat ["d"; "e"] /\
+  E b s (at_root root (WriteFile ["f"] [1]%N 420%N)) = true /\
+  snd (sub_step b root (fst (sub_step b root s (WriteFile ["f"] [1]%N 420%N))) (ReadDir ["."])) = ODir [("f", KReg)].
+Proof. intro b; destruct b; vm_compute; repeat split; reflexivity. Qed.
+
+(* neither premise can go (both replayed on the real SubFS: corpus scenarios
+   subfs/dotdot-escapes, subfs/symlink-link-unjoined; findings C17-F21, C17-F22):
+   - a ".." in the name climbs out of the root: through the view rooted at d,
+     WriteFile ../x creates /x in the PARENT, and ReadFile ../out reads a file
+     that lies outside the root;
+   - Symlink and Link are not joined: Symlink f l through the view makes /l in
+     the parent's root (Readlink l through the view: not found), and Link f g
+     looks f up in the parent's root although ReadFile f through the view reads it. *)
+Theorem c17_subfs_dotdot_refuted : forall b,
+  let s := after b [Mkdir ["d"] 493%N; WriteFile ["out"] [7]%N 420%N] in
+  let s1 := fst (sub_step b ["d"] s (WriteFile [".."; "x"] [1]%N 420%N)) in
+  sub_op ["d"] (WriteFile [".."; "x"] [1]%N 420%N) = WriteFile ["x"] [1]%N 420%N /\
+  snd (sub_step b ["d"] s (WriteFile [".."; "x"] [1]%N 420%N)) = OOk /\
+  snd (model_step b s (Stat ["x"])) = OErr ENotExist /\
+  snd (model_step b s1 (ReadFile ["x"])) = OBytes [1]%N /\
+  snd (model_step b s1 (ReadDir ["d"])) = ODir [] /\
+  snd (sub_step b ["d"] s (ReadFile [".."; "out"])) = OBytes [7]%N /\
+  ~ (exists q, sjoin ["d"] [".."; "x"] = ["d"] ++ q).
+Proof.
+  intro b; destruct b; vm_compute; repeat split; try reflexivity; intros [q H]; discriminate H.
+Qed.
+Print Assumptions c17_subfs_dotdot_refuted.
+
+Theorem c17_subfs_symlink_link_unjoined_refuted : forall b,
+  let s := after b [Mkdir ["d"] 493%N; WriteFile ["d"; "f"] [1]%N 420%N] in
+  let s1 := fst (sub_step b ["d"] s (Symlink ["f"] ["l"])) in
+  snd (sub_step b ["d"] s (Symlink ["f"] ["l"])) = OOk /\
+  snd (sub_step b ["d"] s1 (Readlink ["l"])) = OErr ENotExist /\
+  snd (model_step b s1 (Readlink ["l"])) = OPath ["f"] /\
+  snd (model_step b s1 (ReadDir ["d"])) = ODir [("f", KReg)] /\
+  snd (sub_step b ["d"] s (ReadFile ["f"])) = OBytes [1]%N /\
+  snd (sub_step b ["d"] s (Link ["f"] ["g"])) = OErr ENotExist /\
+  snd (spec_step s (at_root ["d"] (Link ["f"] ["g"]))) = OOk /\
+  sub_op ["d"] (Symlink ["f"] ["l"]) <> at_root ["d"] (Symlink ["f"] ["l"]).
+Proof.
+  intro b; destruct b; vm_compute; repeat split; try reflexivity; intro H; discriminate H.
+Qed.
+Print Assumptions c17_subfs_symlink_link_unjoined_refuted.
 
 Definition fl_rdwr := mkFl ARdWr false false false false.
 Definition fl_rd := mkFl ARd false false false false.
